@@ -11,6 +11,7 @@ dispenser's float-derived choices, which the acceptor leaves arbitrary — plus 
 sums are reduced.
 -/
 import PcProofs.P2LoopEx
+import PcGen.P2LoopObl
 namespace Pc.C03
 open Pc.P2L Pc.LB Finset
 
